@@ -65,6 +65,15 @@ module Nat =
     | S n' -> (match m with
                | O -> false
                | S m' -> eqb n' m')
+
+  (** val leb : nat -> nat -> bool **)
+
+  let rec leb n0 m =
+    match n0 with
+    | O -> true
+    | S n' -> (match m with
+               | O -> false
+               | S m' -> leb n' m')
  end
 
 (** val nth : nat -> 'a1 list -> 'a1 -> 'a1 **)
@@ -78,6 +87,16 @@ let rec nth n0 l default =
             | [] -> default
             | _ :: t -> nth m t default)
 
+(** val nth_error : 'a1 list -> nat -> 'a1 option **)
+
+let rec nth_error l = function
+| O -> (match l with
+        | [] -> None
+        | x :: _ -> Some x)
+| S n1 -> (match l with
+           | [] -> None
+           | _ :: l0 -> nth_error l0 n1)
+
 (** val rev : 'a1 list -> 'a1 list **)
 
 let rec rev = function
@@ -90,6 +109,18 @@ let rec rev_append l l' =
   match l with
   | [] -> l'
   | a :: l0 -> rev_append l0 (a :: l')
+
+(** val map : ('a1 -> 'a2) -> 'a1 list -> 'a2 list **)
+
+let rec map f = function
+| [] -> []
+| a :: t -> (f a) :: (map f t)
+
+(** val flat_map : ('a1 -> 'a2 list) -> 'a1 list -> 'a2 list **)
+
+let rec flat_map f = function
+| [] -> []
+| x :: t -> app (f x) (flat_map f t)
 
 (** val firstn : nat -> 'a1 list -> 'a1 list **)
 
@@ -856,6 +887,18 @@ let z_to_u w z0 =
 let u_to_z w half u =
   if N.ltb u half then Z.of_N u else Z.sub (Z.of_N u) (Z.of_N w)
 
+(** val beq_bytes : bytes -> bytes -> bool **)
+
+let rec beq_bytes a b =
+  match a with
+  | [] -> (match b with
+           | [] -> true
+           | _ :: _ -> false)
+  | x :: a' ->
+    (match b with
+     | [] -> false
+     | y :: b' -> (&&) (N.eqb x y) (beq_bytes a' b'))
+
 type str = n list
 
 (** val sp : n **)
@@ -1409,6 +1452,846 @@ let run_dec = function
          | None -> s_bad)
       | _ :: _ -> s_bad))
 
+type entry = { e_index : n; e_term : n; e_type : n; e_data : bytes;
+               e_ext : bytes; e_sec : z; e_nsec : z }
+
+type lstore = { ls_first : n; ls_ents : entry list }
+
+(** val empty_store : lstore **)
+
+let empty_store =
+  { ls_first = N0; ls_ents = [] }
+
+(** val ls_len : lstore -> n **)
+
+let ls_len s =
+  N.of_nat (length s.ls_ents)
+
+(** val first_index : lstore -> n **)
+
+let first_index s =
+  match s.ls_ents with
+  | [] -> N0
+  | _ :: _ -> s.ls_first
+
+(** val last_index : lstore -> n **)
+
+let last_index s =
+  match s.ls_ents with
+  | [] -> N0
+  | _ :: _ -> N.sub (N.add s.ls_first (ls_len s)) (Npos XH)
+
+(** val get_log : lstore -> n -> entry option **)
+
+let get_log s idx =
+  if N.ltb idx s.ls_first
+  then None
+  else nth_error s.ls_ents (N.to_nat (N.sub idx s.ls_first))
+
+(** val consecutive_from : n -> entry list -> bool **)
+
+let rec consecutive_from i = function
+| [] -> true
+| e :: r -> (&&) (N.eqb e.e_index i) (consecutive_from (N.add i (Npos XH)) r)
+
+(** val store_logs : lstore -> entry list -> lstore option **)
+
+let store_logs s b = match b with
+| [] -> Some s
+| e :: _ ->
+  (match s.ls_ents with
+   | [] ->
+     if consecutive_from e.e_index b
+     then Some { ls_first = e.e_index; ls_ents = b }
+     else None
+   | _ :: _ ->
+     if (&&) (N.eqb e.e_index (N.add (last_index s) (Npos XH)))
+          (consecutive_from e.e_index b)
+     then Some { ls_first = s.ls_first; ls_ents = (app s.ls_ents b) }
+     else None)
+
+type env = { cancel_at : nat option; get_fail : n option;
+             store_fail : nat option; has_progress : bool }
+
+(** val cancelled : env -> nat -> bool **)
+
+let cancelled ev chk =
+  match ev.cancel_at with
+  | Some k -> Nat.leb k chk
+  | None -> false
+
+(** val src_get : env -> lstore -> n -> entry option **)
+
+let src_get ev src idx =
+  match ev.get_fail with
+  | Some f -> if N.eqb f idx then None else get_log src idx
+  | None -> get_log src idx
+
+(** val dst_store : env -> nat -> lstore -> entry list -> lstore option **)
+
+let dst_store ev ncall dst b =
+  match ev.store_fail with
+  | Some k -> if Nat.eqb k ncall then None else store_logs dst b
+  | None -> store_logs dst b
+
+type cres =
+| COk
+| CCanceled
+| CErrFirst
+| CErrGet
+| CErrStore
+| COutOfFuel
+
+type cout = { o_res : cres; o_dst : lstore; o_batches : entry list list;
+              o_gets : n }
+
+type cresult = { r_res : cres; r_dst : lstore; r_batches : entry list list;
+                 r_gets : n; r_closed : bool }
+
+(** val run_deferred : env -> cout -> cresult **)
+
+let run_deferred ev o =
+  { r_res = o.o_res; r_dst = o.o_dst; r_batches = (rev o.o_batches); r_gets =
+    o.o_gets; r_closed = ev.has_progress }
+
+(** val ret : cres -> lstore -> entry list list -> n -> cout **)
+
+let ret r dst bs g =
+  { o_res = r; o_dst = dst; o_batches = bs; o_gets = g }
+
+(** val flush :
+    env -> lstore -> entry list list -> entry list -> (lstore * entry list
+    list) option **)
+
+let flush ev dst bs batch_rev =
+  let b = rev_append batch_rev [] in
+  (match dst_store ev (length bs) dst b with
+   | Some d -> Some (d, (b :: bs))
+   | None -> None)
+
+(** val copy_loop :
+    nat -> env -> lstore -> z -> n -> n -> nat -> entry list -> z -> lstore
+    -> entry list list -> n -> cout **)
+
+let rec copy_loop fuel ev src bb last idx chk batch_rev bsize dst bs g =
+  match fuel with
+  | O -> ret COutOfFuel dst bs g
+  | S f ->
+    if N.ltb last idx
+    then (match batch_rev with
+          | [] -> ret COk dst bs g
+          | _ :: _ ->
+            (match flush ev dst bs batch_rev with
+             | Some p -> let (d, bs') = p in ret COk d bs' g
+             | None -> ret CErrStore dst bs g))
+    else if cancelled ev chk
+         then ret CCanceled dst bs g
+         else (match src_get ev src idx with
+               | Some e ->
+                 let batch' = e :: batch_rev in
+                 let bsize' =
+                   Z.add (Z.add bsize (Z.of_N (len e.e_data))) (Zpos (XO (XO
+                     (XO (XO (XO XH))))))
+                 in
+                 let idx' = N.modulo (N.add idx (Npos XH)) two64 in
+                 if Z.leb bb bsize'
+                 then (match flush ev dst bs batch' with
+                       | Some p ->
+                         let (d, bs') = p in
+                         copy_loop f ev src bb last idx' (S chk) [] Z0 d bs'
+                           (N.add g (Npos XH))
+                       | None -> ret CErrStore dst bs (N.add g (Npos XH)))
+                 else copy_loop f ev src bb last idx' (S chk) batch' bsize'
+                        dst bs (N.add g (Npos XH))
+               | None -> ret CErrGet dst bs (N.add g (Npos XH)))
+
+(** val copy_logs_body : env -> z -> lstore -> lstore -> cout **)
+
+let copy_logs_body ev bb src dst =
+  let first = first_index src in
+  let last = last_index src in
+  if (&&) (N.eqb first N0) (N.eqb last N0)
+  then ret COk dst [] N0
+  else copy_loop (S (S (length src.ls_ents))) ev src bb last first O [] Z0
+         dst [] N0
+
+(** val copy_logs : env -> z -> lstore -> lstore -> cresult **)
+
+let copy_logs ev bb src dst =
+  run_deferred ev (copy_logs_body ev bb src dst)
+
+(** val indexed_fromb : n -> entry list -> bool **)
+
+let rec indexed_fromb i = function
+| [] -> true
+| e :: r -> (&&) (N.eqb e.e_index i) (indexed_fromb (N.add i (Npos XH)) r)
+
+(** val wf_storeb : lstore -> bool **)
+
+let wf_storeb s =
+  (&&)
+    ((&&) (indexed_fromb s.ls_first s.ls_ents)
+      (match s.ls_ents with
+       | [] -> true
+       | _ :: _ -> N.leb (Npos XH) s.ls_first))
+    (N.ltb (N.add s.ls_first (ls_len s)) two64)
+
+type sstore = { s_kv : (bytes * bytes) list; s_int : (bytes * n) list }
+
+(** val empty_sstore : sstore **)
+
+let empty_sstore =
+  { s_kv = []; s_int = [] }
+
+(** val lookup : bytes -> (bytes * 'a1) list -> 'a1 option **)
+
+let rec lookup k = function
+| [] -> None
+| p :: r -> let (k', v) = p in if beq_bytes k k' then Some v else lookup k r
+
+(** val s_get : sstore -> bytes -> bytes option **)
+
+let s_get s k =
+  lookup k s.s_kv
+
+(** val s_get_int : sstore -> bytes -> n option **)
+
+let s_get_int s k =
+  lookup k s.s_int
+
+(** val s_set : sstore -> bytes -> bytes -> sstore **)
+
+let s_set s k v =
+  { s_kv = ((k, v) :: s.s_kv); s_int = s.s_int }
+
+(** val s_set_int : sstore -> bytes -> n -> sstore **)
+
+let s_set_int s k v =
+  { s_kv = s.s_kv; s_int = ((k, v) :: s.s_int) }
+
+type miss_policy = { miss_get_err : bool; miss_int_err : bool }
+
+type sres =
+| SOk
+| SCanceled
+| SErrGet
+
+(** val k_current_term : bytes **)
+
+let k_current_term =
+  (Npos (XI (XI (XO (XO (XO (XO XH))))))) :: ((Npos (XI (XO (XI (XO (XI (XI
+    XH))))))) :: ((Npos (XO (XI (XO (XO (XI (XI XH))))))) :: ((Npos (XO (XI
+    (XO (XO (XI (XI XH))))))) :: ((Npos (XI (XO (XI (XO (XO (XI
+    XH))))))) :: ((Npos (XO (XI (XI (XI (XO (XI XH))))))) :: ((Npos (XO (XO
+    (XI (XO (XI (XI XH))))))) :: ((Npos (XO (XO (XI (XO (XI (XO
+    XH))))))) :: ((Npos (XI (XO (XI (XO (XO (XI XH))))))) :: ((Npos (XO (XI
+    (XO (XO (XI (XI XH))))))) :: ((Npos (XI (XO (XI (XI (XO (XI
+    XH))))))) :: []))))))))))
+
+(** val k_last_vote_term : bytes **)
+
+let k_last_vote_term =
+  (Npos (XO (XO (XI (XI (XO (XO XH))))))) :: ((Npos (XI (XO (XO (XO (XO (XI
+    XH))))))) :: ((Npos (XI (XI (XO (XO (XI (XI XH))))))) :: ((Npos (XO (XO
+    (XI (XO (XI (XI XH))))))) :: ((Npos (XO (XI (XI (XO (XI (XO
+    XH))))))) :: ((Npos (XI (XI (XI (XI (XO (XI XH))))))) :: ((Npos (XO (XO
+    (XI (XO (XI (XI XH))))))) :: ((Npos (XI (XO (XI (XO (XO (XI
+    XH))))))) :: ((Npos (XO (XO (XI (XO (XI (XO XH))))))) :: ((Npos (XI (XO
+    (XI (XO (XO (XI XH))))))) :: ((Npos (XO (XI (XO (XO (XI (XI
+    XH))))))) :: ((Npos (XI (XO (XI (XI (XO (XI XH))))))) :: [])))))))))))
+
+(** val k_last_vote_cand : bytes **)
+
+let k_last_vote_cand =
+  (Npos (XO (XO (XI (XI (XO (XO XH))))))) :: ((Npos (XI (XO (XO (XO (XO (XI
+    XH))))))) :: ((Npos (XI (XI (XO (XO (XI (XI XH))))))) :: ((Npos (XO (XO
+    (XI (XO (XI (XI XH))))))) :: ((Npos (XO (XI (XI (XO (XI (XO
+    XH))))))) :: ((Npos (XI (XI (XI (XI (XO (XI XH))))))) :: ((Npos (XO (XO
+    (XI (XO (XI (XI XH))))))) :: ((Npos (XI (XO (XI (XO (XO (XI
+    XH))))))) :: ((Npos (XI (XI (XO (XO (XO (XO XH))))))) :: ((Npos (XI (XO
+    (XO (XO (XO (XI XH))))))) :: ((Npos (XO (XI (XI (XI (XO (XI
+    XH))))))) :: ((Npos (XO (XO (XI (XO (XO (XI XH))))))) :: [])))))))))))
+
+(** val known_int_keys : bytes list **)
+
+let known_int_keys =
+  k_current_term :: (k_last_vote_term :: [])
+
+(** val known_keys : bytes list **)
+
+let known_keys =
+  k_last_vote_cand :: []
+
+type sout = { so_res : sres; so_dst : sstore; so_chk : nat }
+
+(** val copy_int_keys :
+    miss_policy -> nat option -> sstore -> bytes list -> nat -> sstore -> sout **)
+
+let rec copy_int_keys pol cancel src ks chk dst =
+  match ks with
+  | [] -> { so_res = SOk; so_dst = dst; so_chk = chk }
+  | k :: r ->
+    if match cancel with
+       | Some c -> Nat.leb c chk
+       | None -> false
+    then { so_res = SCanceled; so_dst = dst; so_chk = chk }
+    else (match s_get_int src k with
+          | Some v ->
+            copy_int_keys pol cancel src r (S chk) (s_set_int dst k v)
+          | None ->
+            if pol.miss_int_err
+            then { so_res = SErrGet; so_dst = dst; so_chk = chk }
+            else copy_int_keys pol cancel src r (S chk) (s_set_int dst k N0))
+
+(** val copy_keys :
+    miss_policy -> nat option -> sstore -> bytes list -> nat -> sstore -> sout **)
+
+let rec copy_keys pol cancel src ks chk dst =
+  match ks with
+  | [] -> { so_res = SOk; so_dst = dst; so_chk = chk }
+  | k :: r ->
+    if match cancel with
+       | Some c -> Nat.leb c chk
+       | None -> false
+    then { so_res = SCanceled; so_dst = dst; so_chk = chk }
+    else (match s_get src k with
+          | Some v -> copy_keys pol cancel src r (S chk) (s_set dst k v)
+          | None ->
+            if pol.miss_get_err
+            then { so_res = SErrGet; so_dst = dst; so_chk = chk }
+            else copy_keys pol cancel src r (S chk) (s_set dst k []))
+
+type sresult = { sr_res : sres; sr_dst : sstore; sr_closed : bool }
+
+(** val copy_stable :
+    miss_policy -> nat option -> bool -> sstore -> sstore -> bytes list ->
+    bytes list -> sresult **)
+
+let copy_stable pol cancel progress src dst extra extra_int =
+  let o1 = copy_int_keys pol cancel src (app known_int_keys extra_int) O dst
+  in
+  let o =
+    match o1.so_res with
+    | SOk ->
+      copy_keys pol cancel src (app known_keys extra) o1.so_chk o1.so_dst
+    | _ -> o1
+  in
+  { sr_res = o.so_res; sr_dst = o.so_dst; sr_closed = progress }
+
+(** val s_canceled : str **)
+
+let s_canceled =
+  (Npos (XI (XI (XO (XO (XO (XI XH))))))) :: ((Npos (XI (XO (XO (XO (XO (XI
+    XH))))))) :: ((Npos (XO (XI (XI (XI (XO (XI XH))))))) :: ((Npos (XI (XI
+    (XO (XO (XO (XI XH))))))) :: ((Npos (XI (XO (XI (XO (XO (XI
+    XH))))))) :: ((Npos (XO (XO (XI (XI (XO (XI XH))))))) :: ((Npos (XI (XO
+    (XI (XO (XO (XI XH))))))) :: ((Npos (XO (XO (XI (XO (XO (XI
+    XH))))))) :: [])))))))
+
+(** val s_errfirst : str **)
+
+let s_errfirst =
+  (Npos (XI (XO (XI (XO (XO (XI XH))))))) :: ((Npos (XO (XI (XO (XO (XI (XI
+    XH))))))) :: ((Npos (XO (XI (XO (XO (XI (XI XH))))))) :: ((Npos (XO (XI
+    (XI (XO (XO (XI XH))))))) :: ((Npos (XI (XO (XO (XI (XO (XI
+    XH))))))) :: ((Npos (XO (XI (XO (XO (XI (XI XH))))))) :: ((Npos (XI (XI
+    (XO (XO (XI (XI XH))))))) :: ((Npos (XO (XO (XI (XO (XI (XI
+    XH))))))) :: [])))))))
+
+(** val s_errget : str **)
+
+let s_errget =
+  (Npos (XI (XO (XI (XO (XO (XI XH))))))) :: ((Npos (XO (XI (XO (XO (XI (XI
+    XH))))))) :: ((Npos (XO (XI (XO (XO (XI (XI XH))))))) :: ((Npos (XI (XI
+    (XI (XO (XO (XI XH))))))) :: ((Npos (XI (XO (XI (XO (XO (XI
+    XH))))))) :: ((Npos (XO (XO (XI (XO (XI (XI XH))))))) :: [])))))
+
+(** val s_errstore : str **)
+
+let s_errstore =
+  (Npos (XI (XO (XI (XO (XO (XI XH))))))) :: ((Npos (XO (XI (XO (XO (XI (XI
+    XH))))))) :: ((Npos (XO (XI (XO (XO (XI (XI XH))))))) :: ((Npos (XI (XI
+    (XO (XO (XI (XI XH))))))) :: ((Npos (XO (XO (XI (XO (XI (XI
+    XH))))))) :: ((Npos (XI (XI (XI (XI (XO (XI XH))))))) :: ((Npos (XO (XI
+    (XO (XO (XI (XI XH))))))) :: ((Npos (XI (XO (XI (XO (XO (XI
+    XH))))))) :: [])))))))
+
+(** val s_fuel : str **)
+
+let s_fuel =
+  (Npos (XO (XI (XI (XO (XO (XI XH))))))) :: ((Npos (XI (XO (XI (XO (XI (XI
+    XH))))))) :: ((Npos (XI (XO (XI (XO (XO (XI XH))))))) :: ((Npos (XO (XO
+    (XI (XI (XO (XI XH))))))) :: [])))
+
+(** val s_dash : str **)
+
+let s_dash =
+  (Npos (XI (XO (XI (XI (XO XH)))))) :: []
+
+(** val opt_N : str -> n option option **)
+
+let opt_N s =
+  if str_eqb s s_dash
+  then Some None
+  else (match hex_to_N s with
+        | Some n0 -> Some (Some n0)
+        | None -> None)
+
+(** val opt_nat : str -> nat option option **)
+
+let opt_nat s =
+  match opt_N s with
+  | Some o ->
+    (match o with
+     | Some n0 -> Some (Some (N.to_nat n0))
+     | None -> Some None)
+  | None -> None
+
+(** val parse_bool : str -> bool option **)
+
+let parse_bool = function
+| [] -> None
+| n0 :: l ->
+  (match n0 with
+   | N0 -> None
+   | Npos p ->
+     (match p with
+      | XI p0 ->
+        (match p0 with
+         | XO p1 ->
+           (match p1 with
+            | XO p2 ->
+              (match p2 with
+               | XO p3 ->
+                 (match p3 with
+                  | XI p4 ->
+                    (match p4 with
+                     | XH -> (match l with
+                              | [] -> Some true
+                              | _ :: _ -> None)
+                     | _ -> None)
+                  | _ -> None)
+               | _ -> None)
+            | _ -> None)
+         | _ -> None)
+      | XO p0 ->
+        (match p0 with
+         | XO p1 ->
+           (match p1 with
+            | XO p2 ->
+              (match p2 with
+               | XO p3 ->
+                 (match p3 with
+                  | XI p4 ->
+                    (match p4 with
+                     | XH -> (match l with
+                              | [] -> Some false
+                              | _ :: _ -> None)
+                     | _ -> None)
+                  | _ -> None)
+               | _ -> None)
+            | _ -> None)
+         | _ -> None)
+      | XH -> None))
+
+(** val parse_entries : nat -> str list -> entry list option **)
+
+let rec parse_entries fuel ts =
+  match fuel with
+  | O -> None
+  | S f ->
+    (match ts with
+     | [] -> Some []
+     | i :: l ->
+       (match l with
+        | [] -> None
+        | t :: l0 ->
+          (match l0 with
+           | [] -> None
+           | ty :: l1 ->
+             (match l1 with
+              | [] -> None
+              | d :: l2 ->
+                (match l2 with
+                 | [] -> None
+                 | e :: l3 ->
+                   (match l3 with
+                    | [] -> None
+                    | sec :: l4 ->
+                      (match l4 with
+                       | [] -> None
+                       | ns :: rest ->
+                         (match hex_to_N i with
+                          | Some i0 ->
+                            (match hex_to_N t with
+                             | Some t0 ->
+                               (match hex_to_N ty with
+                                | Some ty0 ->
+                                  (match hex_to_bytes d with
+                                   | Some d0 ->
+                                     (match hex_to_bytes e with
+                                      | Some e0 ->
+                                        (match hex_to_Z sec with
+                                         | Some sec0 ->
+                                           (match hex_to_Z ns with
+                                            | Some ns0 ->
+                                              (match parse_entries f rest with
+                                               | Some r ->
+                                                 Some ({ e_index = i0;
+                                                   e_term = t0; e_type = ty0;
+                                                   e_data = d0; e_ext = e0;
+                                                   e_sec = sec0; e_nsec =
+                                                   ns0 } :: r)
+                                               | None -> None)
+                                            | None -> None)
+                                         | None -> None)
+                                      | None -> None)
+                                   | None -> None)
+                                | None -> None)
+                             | None -> None)
+                          | None -> None))))))))
+
+(** val show_entry : entry -> str list **)
+
+let show_entry e =
+  (n_to_hex e.e_index) :: ((n_to_hex e.e_term) :: ((n_to_hex e.e_type) :: (
+    (bytes_to_hex e.e_data) :: ((bytes_to_hex e.e_ext) :: ((z_to_hex e.e_sec) :: (
+    (z_to_hex e.e_nsec) :: []))))))
+
+(** val show_cres : cres -> str **)
+
+let show_cres = function
+| COk -> s_ok
+| CCanceled -> s_canceled
+| CErrFirst -> s_errfirst
+| CErrGet -> s_errget
+| CErrStore -> s_errstore
+| COutOfFuel -> s_fuel
+
+(** val show_bool : bool -> str **)
+
+let show_bool = function
+| true -> (Npos (XI (XO (XO (XO (XI XH)))))) :: []
+| false -> (Npos (XO (XO (XO (XO (XI XH)))))) :: []
+
+(** val show_cresult : cresult -> str **)
+
+let show_cresult r =
+  join
+    (app
+      ((show_cres r.r_res) :: ((show_bool r.r_closed) :: ((n_to_hex r.r_gets) :: (
+      (n_to_hex (first_index r.r_dst)) :: ((n_to_hex (last_index r.r_dst)) :: (
+      (n_to_hex (N.of_nat (length r.r_batches))) :: []))))))
+      (app (map (fun b -> n_to_hex (N.of_nat (length b))) r.r_batches)
+        (app ((n_to_hex (ls_len r.r_dst)) :: [])
+          (flat_map show_entry r.r_dst.ls_ents))))
+
+(** val run_mig : str list -> str **)
+
+let run_mig = function
+| [] -> s_bad
+| _ :: l ->
+  (match l with
+   | [] -> s_bad
+   | _ :: l0 ->
+     (match l0 with
+      | [] -> s_bad
+      | prog :: l1 ->
+        (match l1 with
+         | [] -> s_bad
+         | bb :: l2 ->
+           (match l2 with
+            | [] -> s_bad
+            | cancel :: l3 ->
+              (match l3 with
+               | [] -> s_bad
+               | gf :: l4 ->
+                 (match l4 with
+                  | [] -> s_bad
+                  | sf :: l5 ->
+                    (match l5 with
+                     | [] -> s_bad
+                     | first :: ents ->
+                       (match parse_bool prog with
+                        | Some prog0 ->
+                          (match hex_to_Z bb with
+                           | Some bb0 ->
+                             (match opt_nat cancel with
+                              | Some cancel0 ->
+                                (match opt_N gf with
+                                 | Some gf0 ->
+                                   (match opt_nat sf with
+                                    | Some sf0 ->
+                                      (match hex_to_N first with
+                                       | Some first0 ->
+                                         (match parse_entries (S
+                                                  (length ents)) ents with
+                                          | Some ents0 ->
+                                            let src = { ls_first = first0;
+                                              ls_ents = ents0 }
+                                            in
+                                            if wf_storeb src
+                                            then show_cresult
+                                                   (copy_logs { cancel_at =
+                                                     cancel0; get_fail = gf0;
+                                                     store_fail = sf0;
+                                                     has_progress = prog0 }
+                                                     bb0 src empty_store)
+                                            else s_bad
+                                          | None -> s_bad)
+                                       | None -> s_bad)
+                                    | None -> s_bad)
+                                 | None -> s_bad)
+                              | None -> s_bad)
+                           | None -> s_bad)
+                        | None -> s_bad))))))))
+
+(** val policy_of : str -> miss_policy option **)
+
+let policy_of = function
+| [] -> None
+| n0 :: l ->
+  (match n0 with
+   | N0 -> None
+   | Npos p ->
+     (match p with
+      | XI p0 ->
+        (match p0 with
+         | XI p1 ->
+           (match p1 with
+            | XI p2 ->
+              (match p2 with
+               | XO p3 ->
+                 (match p3 with
+                  | XI p4 ->
+                    (match p4 with
+                     | XI p5 ->
+                       (match p5 with
+                        | XH ->
+                          (match l with
+                           | [] ->
+                             Some { miss_get_err = false; miss_int_err =
+                               false }
+                           | _ :: _ -> None)
+                        | _ -> None)
+                     | _ -> None)
+                  | _ -> None)
+               | _ -> None)
+            | _ -> None)
+         | XO p1 ->
+           (match p1 with
+            | XO p2 ->
+              (match p2 with
+               | XI p3 ->
+                 (match p3 with
+                  | XO p4 ->
+                    (match p4 with
+                     | XI p5 ->
+                       (match p5 with
+                        | XH ->
+                          (match l with
+                           | [] ->
+                             Some { miss_get_err = true; miss_int_err =
+                               false }
+                           | _ :: _ -> None)
+                        | _ -> None)
+                     | _ -> None)
+                  | _ -> None)
+               | _ -> None)
+            | _ -> None)
+         | XH -> None)
+      | XO p0 ->
+        (match p0 with
+         | XI p1 ->
+           (match p1 with
+            | XO p2 ->
+              (match p2 with
+               | XO p3 ->
+                 (match p3 with
+                  | XO p4 ->
+                    (match p4 with
+                     | XI p5 ->
+                       (match p5 with
+                        | XH ->
+                          (match l with
+                           | [] ->
+                             Some { miss_get_err = true; miss_int_err = true }
+                           | _ :: _ -> None)
+                        | _ -> None)
+                     | _ -> None)
+                  | _ -> None)
+               | _ -> None)
+            | _ -> None)
+         | _ -> None)
+      | XH -> None))
+
+(** val take_keys : nat -> str list -> (bytes list * str list) option **)
+
+let rec take_keys n0 ts =
+  match n0 with
+  | O -> Some ([], ts)
+  | S m ->
+    (match ts with
+     | [] -> None
+     | k :: r ->
+       (match hex_to_bytes k with
+        | Some k0 ->
+          (match take_keys m r with
+           | Some p -> let (ks, rest) = p in Some ((k0 :: ks), rest)
+           | None -> None)
+        | None -> None))
+
+(** val take_kvs :
+    nat -> str list -> ((bytes * bytes) list * str list) option **)
+
+let rec take_kvs n0 ts =
+  match n0 with
+  | O -> Some ([], ts)
+  | S m ->
+    (match ts with
+     | [] -> None
+     | k :: l ->
+       (match l with
+        | [] -> None
+        | v :: r ->
+          (match hex_to_bytes k with
+           | Some k0 ->
+             (match hex_to_bytes v with
+              | Some v0 ->
+                (match take_kvs m r with
+                 | Some p ->
+                   let (ks, rest) = p in Some (((k0, v0) :: ks), rest)
+                 | None -> None)
+              | None -> None)
+           | None -> None)))
+
+(** val take_ints :
+    nat -> str list -> ((bytes * n) list * str list) option **)
+
+let rec take_ints n0 ts =
+  match n0 with
+  | O -> Some ([], ts)
+  | S m ->
+    (match ts with
+     | [] -> None
+     | k :: l ->
+       (match l with
+        | [] -> None
+        | v :: r ->
+          (match hex_to_bytes k with
+           | Some k0 ->
+             (match hex_to_N v with
+              | Some v0 ->
+                (match take_ints m r with
+                 | Some p ->
+                   let (ks, rest) = p in Some (((k0, v0) :: ks), rest)
+                 | None -> None)
+              | None -> None)
+           | None -> None)))
+
+(** val count : str list -> (nat * str list) option **)
+
+let count = function
+| [] -> None
+| c :: r ->
+  (match hex_to_N c with
+   | Some n0 ->
+     if N.ltb n0 (Npos (XO (XO (XO (XO (XO (XO (XO (XO (XO (XO (XO (XO
+          XH)))))))))))))
+     then Some ((N.to_nat n0), r)
+     else None
+   | None -> None)
+
+(** val show_sres : sres -> str **)
+
+let show_sres = function
+| SOk -> s_ok
+| SCanceled -> s_canceled
+| SErrGet -> s_errget
+
+(** val show_sresult : sresult -> bytes list -> bytes list -> str **)
+
+let show_sresult r int_keys keys =
+  join
+    (app ((show_sres r.sr_res) :: ((show_bool r.sr_closed) :: []))
+      (app
+        (map (fun k ->
+          n_to_hex (match s_get_int r.sr_dst k with
+                    | Some v -> v
+                    | None -> N0)) int_keys)
+        (map (fun k ->
+          bytes_to_hex (match s_get r.sr_dst k with
+                        | Some v -> v
+                        | None -> [])) keys)))
+
+(** val run_stb : str list -> str **)
+
+let run_stb = function
+| [] -> s_bad
+| src :: l ->
+  (match l with
+   | [] -> s_bad
+   | _ :: l0 ->
+     (match l0 with
+      | [] -> s_bad
+      | prog :: l1 ->
+        (match l1 with
+         | [] -> s_bad
+         | cancel :: r0 ->
+           (match policy_of src with
+            | Some pol ->
+              (match parse_bool prog with
+               | Some prog0 ->
+                 (match opt_nat cancel with
+                  | Some cancel0 ->
+                    (match count r0 with
+                     | Some p ->
+                       let (nx, r1) = p in
+                       (match take_keys nx r1 with
+                        | Some p0 ->
+                          let (extra, r2) = p0 in
+                          (match count r2 with
+                           | Some p1 ->
+                             let (nxi, r3) = p1 in
+                             (match take_keys nxi r3 with
+                              | Some p2 ->
+                                let (extra_int, r4) = p2 in
+                                (match count r4 with
+                                 | Some p3 ->
+                                   let (nkv, r5) = p3 in
+                                   (match take_kvs nkv r5 with
+                                    | Some p4 ->
+                                      let (kvs, r6) = p4 in
+                                      (match count r6 with
+                                       | Some p5 ->
+                                         let (nint, r7) = p5 in
+                                         (match take_ints nint r7 with
+                                          | Some p6 ->
+                                            let (ints, l2) = p6 in
+                                            (match l2 with
+                                             | [] ->
+                                               show_sresult
+                                                 (copy_stable pol cancel0
+                                                   prog0 { s_kv = kvs;
+                                                   s_int = ints }
+                                                   empty_sstore extra
+                                                   extra_int)
+                                                 (app known_int_keys
+                                                   extra_int)
+                                                 (app known_keys extra)
+                                             | _ :: _ -> s_bad)
+                                          | None -> s_bad)
+                                       | None -> s_bad)
+                                    | None -> s_bad)
+                                 | None -> s_bad)
+                              | None -> s_bad)
+                           | None -> s_bad)
+                        | None -> s_bad)
+                     | None -> s_bad)
+                  | None -> s_bad)
+               | None -> s_bad)
+            | None -> s_bad))))
+
 (** val k_enc : str **)
 
 let k_enc =
@@ -1421,6 +2304,18 @@ let k_dec =
   (Npos (XO (XO (XI (XO (XO (XI XH))))))) :: ((Npos (XI (XO (XI (XO (XO (XI
     XH))))))) :: ((Npos (XI (XI (XO (XO (XO (XI XH))))))) :: []))
 
+(** val k_mig : str **)
+
+let k_mig =
+  (Npos (XI (XO (XI (XI (XO (XI XH))))))) :: ((Npos (XI (XO (XO (XI (XO (XI
+    XH))))))) :: ((Npos (XI (XI (XI (XO (XO (XI XH))))))) :: []))
+
+(** val k_stb : str **)
+
+let k_stb =
+  (Npos (XI (XI (XO (XO (XI (XI XH))))))) :: ((Npos (XO (XO (XI (XO (XI (XI
+    XH))))))) :: ((Npos (XO (XI (XO (XO (XO (XI XH))))))) :: []))
+
 (** val run_line : str -> str **)
 
 let run_line line =
@@ -1429,4 +2324,8 @@ let run_line line =
   | cmd :: args ->
     if str_eqb cmd k_enc
     then run_enc args
-    else if str_eqb cmd k_dec then run_dec args else s_bad
+    else if str_eqb cmd k_dec
+         then run_dec args
+         else if str_eqb cmd k_mig
+              then run_mig args
+              else if str_eqb cmd k_stb then run_stb args else s_bad
